@@ -419,7 +419,7 @@ func (p *Prog) resolveRoles() []string {
 	}
 	for _, rd := range roleTable {
 		var m []*ssa.Function
-		for _, fn := range p.Fns {
+		for _, fn := range p.AllFns {
 			if rd.pred(p, fn) {
 				m = append(m, fn)
 			}
@@ -429,7 +429,7 @@ func (p *Prog) resolveRoles() []string {
 	for _, tbl := range [][]roleDef2{roleTable2, roleTable3} {
 		for _, rd := range tbl {
 			var m []*ssa.Function
-			for _, fn := range p.Fns {
+			for _, fn := range p.AllFns {
 				if rd.pred(p, fn, role) {
 					m = append(m, fn)
 				}
@@ -439,7 +439,7 @@ func (p *Prog) resolveRoles() []string {
 	}
 	// a canonical name must not collide with the declared name of another function
 	for fn, cn := range canonName {
-		for _, g := range p.Fns {
+		for _, g := range p.AllFns {
 			if g != fn && rawName(g) == cn {
 				delete(canonName, fn)
 			}
